@@ -100,17 +100,24 @@ def run(chk: Check) -> None:
         opens = [c for c in calls_in_func(f) if last_name(c) in ('open', 'remove', 'load_pickle', 'unlink')]
         chk.ob('SIB-key-function', f, bool(opens), f'{name} acts on that path', kind='acts-on-path')
     fn = prog.func('persistence.PicklePersister.pickle_filename')
+    from ..decisions import paths_under, valuations, value_on_path
     ff = chk.ctx.facts.analyse(fn)
-    cfgf = ff.cfg
-    asg = [n for n in cfgf.nodes if n.kind == 'stmt' and isinstance(n.ast, ast.Assign) and isinstance(n.ast.value, ast.JoinedStr)]
-    ok = len(asg) == 2
-    for a in asg:
-        names = {x.id for x in ast.walk(a.ast.value) if isinstance(x, ast.Name)}
-        if ('notnone', fn.params[1]) in ff.at(a):
-            ok &= {fn.params[0], fn.params[1]} <= names
-        else:
-            ok &= fn.params[0] in names and fn.params[1] not in names
-    chk.ob('SIB-key-function', fn, ok, 'the file name depends on the pid, and on the tag whenever one is given', kind='name-depends-on-both')
+    TAGNONE = f'{fn.params[1]} is None'
+    ok = True
+    n_paths = 0
+    for val in valuations([TAGNONE]):
+        for path in paths_under(ff, val):
+            rets = [i for i, m in enumerate(path) if m.kind == 'return']
+            if not rets or path[-1] is not ff.cfg.exit:
+                continue
+            n_paths += 1
+            v = value_on_path(path, rets[-1], path[rets[-1]].ast.value)
+            names = {x.id for x in ast.walk(v) if isinstance(x, ast.Name)}
+            if val[TAGNONE]:
+                ok &= fn.params[0] in names
+            else:
+                ok &= {fn.params[0], fn.params[1]} <= names
+    chk.ob('SIB-key-function', fn, ok and n_paths >= 2, 'the file name depends on the pid, and on the tag whenever one is given', kind='name-depends-on-both')
     c = [x for x in calls_in_func(fp, 'pickle_filename')]
     chk.ob('SIB-key-function', fp, len(c) == 1 and [norm(a) for a in c[0].args] == fp.params[1:3] and any('self._pickle_directory' in norm(a) for j in calls_in_func(fp, 'join') for a in j.args),
            'the path is <directory>/<name(pid, tag)>', kind='path-from-name')
